@@ -376,6 +376,20 @@ func runC02(p *core.Prog, r *core.Report) {
 			return []string{"no-garbage-key-yet", "not-removed-yet"}
 		}})
 	}
+	// ---------------- R7 count once on put
+	r7 := r.Rule("C02.R7", "DB.put changes counters only for an object that is not indexed yet: exists()==(false, nil), or — when exists answered not-found because of a garbage mark — an explicit index probe found nothing", 1)
+	if put := p.Func(mbDB + "put"); put == nil {
+		r.Fatalf("C02.R7: DB.put not found")
+	} else {
+		ex := func(s core.Site) bool { return s.Name == mbDB+"exists" }
+		gs := []core.Guard{
+			{Name: "exists-false", Match: ex, Comps: []core.Comp{{Result: 0, Kind: core.IsFalse}}},
+			{Name: "exists-err-nil", Match: ex, Comps: []core.Comp{{Result: 1, Kind: core.ErrNil}}},
+			{Name: "index-probe-empty", Match: func(s core.Site) bool { return s.Name == mb+"fetchTypeForID" || s.Name == mb+"fetchTypeForIDWBuf" }, Comps: []core.Comp{{Result: 1, Kind: core.NonNil}}},
+		}
+		core.CheckEffectsFn(p, r7, put, core.EffectRule{Min: 1, Guards: gs, Derived: []core.Derived{{Name: "not-indexed-yet", Alts: [][]string{{"exists-false", "exists-err-nil"}, {"exists-false", "index-probe-empty"}}}},
+			Need: func(string) []string { return []string{"not-indexed-yet"} }, Effect: core.CallTo(mb + "applyDiff")})
+	}
 	// ---------------- R6 presence by value
 	r6 := r.Rule("C02.R6", "keys stored with a nil value (object-id keys, garbage marks, the container mark) are never probed with Bucket.Get(...) compared to nil — inside a write transaction a nil-valued key reads as absent", 1)
 	nilValuedKey := func(fn *ssa.Function, v ssa.Value) bool {
